@@ -284,7 +284,13 @@ impl<'a> Analysis<'a> {
         let w = match &r.op {
             Op::Close { .. } => DropWhere::Close,
             Op::DropHandle { .. } => DropWhere::HandleDrop,
-            Op::StreamDrop => DropWhere::RecvCancel,
+            Op::StreamDrop => {
+                if self.cancelled_recvs.contains(&ri) {
+                    DropWhere::RecvCancel
+                } else {
+                    DropWhere::Other
+                }
+            }
             Op::ARecv { .. } if r.res == Res::Cancelled || r.res == Res::Incomplete => DropWhere::RecvCancel,
             Op::FutDrop { .. } => {
                 if self.cancelled_recvs.contains(&ri) {
@@ -424,7 +430,7 @@ pub fn o_delivery(a: &Analysis) -> Vec<Violation> {
             .d
             .recs
             .iter()
-            .filter(|r| r.res == Res::RecvErr(E::SendClosed))
+            .filter(|r| r.res == Res::RecvErr(E::SendClosed) || r.res == Res::StreamEnd)
             .map(|r| r.inv)
             .max();
         let closes = a.d.recs.iter().any(|r| r.res == Res::CloseOk);
@@ -665,16 +671,17 @@ fn first_inv_of_cancelled(a: &Analysis, ri: usize) -> u64 {
 /// which oracle signatures a property reports
 pub fn owned_prefixes(prop: &str) -> &'static [&'static str] {
     match prop {
-        "C01" => &["ledger/dup-receive", "ledger/lost", "ledger/failed-send-delivered", "ledger/invented"],
+        // a race on the payload slot means a receive may return bytes no send supplied
+        "C01" => &["ledger/dup-receive", "ledger/lost", "ledger/failed-send-delivered", "ledger/invented", "hb/race/KanalPtr"],
         "C02" => &["order/"],
         "C04" => &["ledger/mismatch", "ledger/invented", "hb/race/KanalPtr", "hb/race/owner-returnsxKanalPtr", "hb/race/publishxKanalPtr", "hb/race/re-publishxKanalPtr"],
         "C05" => &["ledger/double-drop", "ledger/leak", "ledger/option", "ledger/drop-of-garbage"],
         "C06" => &["hang/"],
         "C07" => &["hb/race", "life/", "ledger/drop-of-garbage"],
         "C08" => &["cap/"],
-        "C09" => &["ledger/", "order/", "hang/", "count/"],
+        "C09" => &["ledger/", "order/", "hang/", "count/", "close/"],
         "C10" => &["close/", "hang/"],
-        "C11" => &["disc/", "hang/"],
+        "C11" => &["disc/", "hang/", "ledger/lost", "ledger/double-drop", "ledger/leak", "ledger/failed-send-delivered"],
         "C12" => &["count/"],
         "C13" => &["time/", "ledger/leak", "ledger/double-drop", "ledger/option", "ledger/failed-send-delivered", "life/", "hang/"],
         "C14" => &["nonblock/", "ledger/failed-send-delivered", "ledger/lost", "ledger/option", "explain/none"],
@@ -706,6 +713,7 @@ pub fn evaluate(prop: &str, d: &RunData) -> (Vec<Violation>, Vec<Violation>) {
             all.extend(o_order(&a));
             if done {
                 all.extend(o_count(&a));
+                all.extend(o_close(&a));
             }
         }
         "C10" => {
@@ -717,6 +725,8 @@ pub fn evaluate(prop: &str, d: &RunData) -> (Vec<Violation>, Vec<Violation>) {
             if done {
                 all.extend(o_disc(&a));
             }
+            all.extend(o_delivery(&a));
+            all.extend(o_drops(&a));
         }
         "C12" => {
             if done {
